@@ -117,8 +117,8 @@ def judge(ctx):
     if not ctx.ok:
         return out
     # (b) nothing enabled -> not modified
-    if not methods and ctx.met and ctx.met["status"] != "notmodified":
-        out.append(Failure("empty method list but status %s" % ctx.met["status"]))
+    if not methods and ctx.modified:
+        out.append(Failure("empty method list but the file is rewritten"))
     if not ctx.modified:
         return out
     # (a) only configured replacement names, each wrapping an operation whose source is enabled with that name
@@ -186,7 +186,7 @@ def run(O, P):
     seen = set()
     for case, r, calls in results:
         for cin, cout, m in calls:
-            if cout.get("outcome") == "ok" and cout["result"]["metrics"]["status"] == "modified":
+            if C.is_modified(cout):
                 _, pro = strip_prologue(cout["result"]["content"])
                 dsts = [x["dst"] for x in (r.get("config") or {}).get("methods", [])]
                 key = json.dumps(dsts)
